@@ -8,6 +8,7 @@ package c16
 import (
 	"encoding/json"
 	"fmt"
+	"runtime"
 	"sort"
 	"strings"
 	"testing"
@@ -204,7 +205,6 @@ type replay struct {
 	Via        string   `json:"via"`
 }
 
-
 // classify turns a failure into a known-findings key: which clause, through which entry
 // point, and the relation between the exposed path and the exclusion that exposed it.
 func classify(msg string, via string, excl []string) string {
@@ -345,6 +345,7 @@ func TestCheck(t *testing.T) {
 		return
 	}
 	di := -1
+	evals := 0
 	for _, fam := range fams {
 		universe := fam.universe
 		for _, doc := range fam.docs {
@@ -388,6 +389,13 @@ func TestCheck(t *testing.T) {
 						continue
 					}
 					r.Add("evaluations", 1)
+					if evals++; evals%20000 == 0 {
+						// the obfuscator returns its fastjson arena to a sync.Pool without
+						// resetting it, so the arena grows with every call (17 KB per evaluation
+						// here); two collections while it sits in the pool make the pool drop it
+						runtime.GC()
+						runtime.GC()
+					}
 					v := runOne(doc, docJSON, excl, via)
 					if cov > 0 && unc > 0 {
 						r.NonTrivial(docJSON + "|" + strings.Join(excl, ",") + "|" + via)
